@@ -277,11 +277,16 @@ class RefData(object):
 
     def request(self, roles, fi, axis="no", index=None):
         """list of value tuples of the valid cases of the slice (in case order)"""
+        key = (tuple(_rk(r) for r in roles), fi, axis, index)
+        memo = self.__dict__.setdefault("_memo", {})
+        if key in memo:
+            return memo[key]
         rows = []
         for case in self.slice_cases(axis, index):
             vals = [self.value(fi, r, case) for r in roles]
             if all(v is not None for v in vals):
                 rows.append(tuple(vals))
+        memo[key] = rows
         return rows
 
     def request_all(self, roles, fi):
